@@ -68,6 +68,10 @@ def _node_opts(names, traces=(0, 1, 2)):
 def programs(tier: str):
     yield {"nodes": []}
     for lg in (False, True):
+        for place in ("spawn", "create"):
+            yield {"late": True, "mid_logger": lg, "place": place}
+    yield {"enter_cancel": True}
+    for lg in (False, True):
         for tr in (0, 1):
             # the nested scope is left by a cancellation its parent's code handles: lines logged
             # afterwards belong to the parent scope again
@@ -116,7 +120,139 @@ class LogErr(Exception):
     pass
 
 
+def _late(program, ch: Chooser) -> Result:
+    """root (async) > mid (sync, optionally with its own logger); a task started inside `mid`
+    logs after `mid` - and for plain tasks also `root` - have been left and completed, and opens a
+    nested scope of its own there"""
+    loop = VLoop()
+    loop.open()
+    viols: list[dict] = []
+    _cap.records.clear()
+    _cap.errors.clear()
+    try:
+        ms: dict = {}
+        gate = loop.create_future()
+        out: list = []
+
+        def cb(name):
+            return lambda m: ms.__setitem__(name, m)
+
+        def log(where: str) -> None:
+            n0 = len(_cap.records)
+            try:
+                ctx.log_info("MSG late %s", where)
+                recs = [r for r in _cap.records[n0:] if isinstance(r.msg, str) and "MSG" in r.msg]
+                out.append((where, [(r.name, r.getMessage()) for r in recs]))
+            except BaseException as exc:  # noqa: BLE001
+                out.append((where, f"raised {type(exc).__name__}: {exc}"[:120]))
+
+        async def late():
+            await gate
+            log("direct")
+            async with ctx.scope("nested", completion=cb("nested")):
+                log("nested")
+            log("after-nested")
+
+        async def main():
+            kwargs = {"logger": logging.getLogger("own.mid")} if program["mid_logger"] else {}
+            async with ctx.scope("root", completion=cb("root")):
+                with ctx.scope("mid", completion=cb("mid"), **kwargs):
+                    t = ctx.spawn(late) if program["place"] == "spawn" else loop.create_task(late())
+                if program["place"] == "spawn":
+                    gate.set_result(None)  # the root's exit waits for the spawned task
+            if program["place"] == "create":
+                gate.set_result(None)  # everything the task inherited has been left by now
+            await t
+
+        task = loop.create_task(main())
+        loop.run_ready()
+        if not task.done() or task.exception() is not None:
+            viols.append(viol("never-raises", "late-task/driver", "runs", repr(task.exception() if task.done() else "pending")[:160]))
+        want_logger = "own.mid" if program["mid_logger"] else "root"
+        mid = ms.get("mid")
+        for where, got in out:
+            if isinstance(got, str):
+                viols.append(viol("never-raises", f"late-task/{where}/{program['place']}", "no exception", got))
+                continue
+            if len(got) != 1:
+                viols.append(viol("exactly-one-record", f"late-task/{where}", 1, len(got)))
+                continue
+            name, text = got[0]
+            if name != want_logger:
+                viols.append(viol("logger", f"late-task/{where}/{'own' if program['mid_logger'] else 'inherited'}", want_logger, name))
+            if mid is not None and f"[{mid.trace_id}]" not in text:
+                viols.append(viol("trace-id", f"late-task/{where}", "the trace id of the scope the task was started in", text[:80]))
+            scope_m = ms.get("nested") if where == "nested" else mid
+            if scope_m is not None and f"[{scope_m.identifier}]" not in text:
+                viols.append(viol("tagged", f"late-task/identifier/{where}", "identifier of the task's current scope", text[:100]))
+        return Result(f"late/{program['place']}/{program['mid_logger']}", True, viols[:5], {"out": [[w_, g if isinstance(g, str) else [x[0] for x in g]] for w_, g in out]}, steps=len(out))
+    finally:
+        loop.shutdown()
+
+
+def _enter_cancel(program, ch: Chooser) -> Result:
+    """a nested scope whose suspended disposable enter is cancelled (and handled): lines logged
+    afterwards are the parent's again, and lines outside any scope go untagged to root"""
+    from hv.ctxkit import Disp
+
+    loop = VLoop()
+    loop.open()
+    viols: list[dict] = []
+    _cap.records.clear()
+    try:
+        ms: dict = {}
+        out: list = []
+
+        class Slow(Disp):
+            async def __aenter__(self):
+                await loop.create_future()
+
+        def log(where: str) -> None:
+            n0 = len(_cap.records)
+            ctx.log_info("MSG ec %s", where)
+            recs = [r for r in _cap.records[n0:] if isinstance(r.msg, str) and "MSG" in r.msg]
+            out.append((where, [(r.name, r.getMessage()) for r in recs]))
+
+        async def attempt():
+            try:
+                loop.call_soon(asyncio.current_task().cancel)
+                async with ctx.scope("inner", disposables=[Slow(None)], logger=logging.getLogger("own.inner")):
+                    log("never")
+            except asyncio.CancelledError:
+                asyncio.current_task().uncancel()
+
+        async def main():
+            async with ctx.scope("outer", completion=lambda m: ms.__setitem__("outer", m)):
+                await attempt()
+                log("in-outer")
+            await attempt()
+            log("outside")
+
+        task = loop.create_task(main())
+        loop.run_ready()
+        if not task.done() or task.exception() is not None:
+            viols.append(viol("never-raises", "enter-cancel/driver", "runs", repr(task.exception() if task.done() else "pending")[:160]))
+        for where, got in out:
+            if len(got) != 1:
+                viols.append(viol("exactly-one-record", f"enter-cancel/{where}", 1, len(got)))
+                continue
+            name, text = got[0]
+            if where == "in-outer" and (name != "outer" or "[outer]" not in text):
+                viols.append(viol("logger", "enter-cancel/parent-scope-after-cancelled-enter", "outer / tagged [outer]", [name, text[:80]]))
+            if where == "outside" and (name != "root" or text != "MSG ec outside"):
+                viols.append(viol("untagged-outside", "enter-cancel/after-cancelled-enter", ["root", "MSG ec outside"], [name, text[:80]]))
+            if where == "never":
+                viols.append(viol("harness", "body-ran", "enter is cancelled", "body ran"))
+        return Result("enter-cancel", True, viols[:5], {"out": [[w_, [x[0] for x in g]] for w_, g in out]}, steps=len(out))
+    finally:
+        loop.shutdown()
+
+
 def execute(program, ch: Chooser) -> Result:  # noqa: C901, PLR0915
+    if program.get("late"):
+        return _late(program, ch)
+    if program.get("enter_cancel"):
+        return _enter_cancel(program, ch)
     nodes = program["nodes"]
     loop = VLoop()
     loop.open()
